@@ -357,7 +357,7 @@ func tarNames(fs []TarFile) []string {
 
 var specC14Load = Register(&Spec[DebCase]{
 	Prop: "C14", Name: "load",
-	Rule:  "format-2.0 .deb packages built by an independent builder from a model: control paragraph (C10 DEBIAN/control generator, incl. X- fields), control.tar with optional './' entry, './control' or 'control' at any position among md5sums/conffiles/postinst (containing look-alike 'Package:' text)/control.bak/triggers, data.tar of directories, regular files (0..4 KiB, sizes around the 512-byte tar block) and symlinks, control and data codec each from {none, gz, xz, bz2, lzma, zst} (xz members written with a 1, 8 or 16 MiB dictionary - 64 MiB too in the thorough tier), extra '_*' members after or between, optional GNU '/' name terminators; loaded with Load or LoadFile and twice more, and (LoadFile cases) once more keeping nothing but Deb.Data and the close function while the garbage collector runs before the payload is read. Oracle: typed control fields, unknown fields, SourceName, ControlExt/DataExt, Path, ArContent keys and bytes (in a third of the cases read through the indexed readers themselves, before the payload is touched), IsTarfile() / Tarfile() of the indexed control and data members (same listing and contents as the model), and the exact (name, type, content, link) sequence of the data tar equal the model; repeated loads agree. Non-trivial: control.tar has >= 2 files with control not first, or the two codecs differ; distinct by archive bytes.",
+	Rule:  "format-2.0 .deb packages built by an independent builder from a model: control paragraph (C10 DEBIAN/control generator, incl. X- fields), both tars in the GNU dialect (3/5), plain ustar or pax (every entry behind an extended header: sub-second mtime, atime, a non-ASCII owner name - what `tar --format=posix` and Python's tarfile write); control.tar with optional './' entry, './control' or 'control' at any position among md5sums/conffiles/postinst (containing look-alike 'Package:' text)/control.bak/triggers, data.tar of directories, regular files (0..4 KiB, sizes around the 512-byte tar block) and symlinks, control and data codec each from {none, gz, xz, bz2, lzma, zst} (xz members written with a 1, 8 or 16 MiB dictionary - 64 MiB too in the thorough tier), extra '_*' members after or between, optional GNU '/' name terminators; loaded with Load or LoadFile and twice more, and (LoadFile cases) once more keeping nothing but Deb.Data and the close function while the garbage collector runs before the payload is read. Oracle: typed control fields, unknown fields, SourceName, ControlExt/DataExt, Path, ArContent keys and bytes (in a third of the cases read through the indexed readers themselves, before the payload is touched), IsTarfile() / Tarfile() of the indexed control and data members (same listing and contents as the model), and the exact (name, type, content, link) sequence of the data tar equal the model; repeated loads agree. Non-trivial: control.tar has >= 2 files with control not first, or the two codecs differ; distinct by archive bytes.",
 	Check: checkDebCase,
 })
 
@@ -564,6 +564,70 @@ func TestC14_Reject(t *testing.T) {
 		}
 		return RejectCase{M: m, Class: class}
 	}, 400, 4000)
+}
+
+// ------------------------------------------------------------------ the same bytes, the same result
+//
+// Members that are named like the control or data member without being one (control.sig,
+// data.sha256, ...) are no part of a well-formed package and the statement does not say whether such
+// a file loads - but it says that the same bytes always give the same result.
+
+type SameBytesCase struct {
+	M     DebModel `json:"m"`
+	Loads int      `json:"loads"`
+}
+
+var specC14SameBytes = Register(&Spec[SameBytesCase]{
+	Prop: "C14", Name: "samebytes",
+	Rule: "well-formed packages (stored, gzip or xz members) with one or two further members named like the control or data member without being a tar archive of any kind (control.sig, control.txt, control, data.sha256, data.sig, data.json, data, control.tar.sig, data.tar.asc) between the two or behind them, loaded 8..16 times from the same bytes. Oracle: every load gives the same outcome - the same error text, or the same extensions, package, version, architecture, member index and relationship fields. Every case is non-trivial; distinct by archive bytes.",
+	Check: func(c SameBytesCase, r *Recorder) error {
+		raw, _, err := buildDeb(c.M)
+		if err != nil {
+			return errf("HARNESS: %v", err)
+		}
+		first, err := debOutcome(raw, false)
+		if err != nil {
+			return err
+		}
+		cl := "refused"
+		if strings.HasPrefix(first, "ok ") {
+			cl = "loaded"
+		}
+		r.Case(string(raw), true, "look-alike-member:"+cl)
+		names := []string{}
+		for _, e := range c.M.Extra {
+			names = append(names, e.Name)
+		}
+		r.Sample(map[string]interface{}{"extra": names, "pos": c.M.ExtraPos, "first": first})
+		for i := 1; i < c.Loads; i++ {
+			again, err := debOutcome(raw, false)
+			if err != nil {
+				return err
+			}
+			if again != first {
+				return errf("the same %d bytes (further members %q) loaded %d times: load 1 gives %q, load %d gives %q", len(raw), names, c.Loads, first, i+1, again)
+			}
+		}
+		return nil
+	},
+})
+
+func TestC14_SameBytes(t *testing.T) {
+	specC14SameBytes.Run(t, func(t *rapid.T) SameBytesCase {
+		m := genDebModel(t)
+		m.CtlCodec = rapid.SampledFrom([]string{"", "gz", "xz"}).Draw(t, "cc")
+		m.DataCodec = rapid.SampledFrom([]string{"", "gz", "xz"}).Draw(t, "dc")
+		m.Extra = nil
+		for i := rapid.IntRange(1, 2).Draw(t, "nlook"); i > 0; i-- {
+			name := rapid.SampledFrom([]string{"control.sig", "control.txt", "control", "data.sha256", "data.sig", "data.json", "data", "control.tar.sig", "data.tar.asc"}).Draw(t, "look")
+			if len(m.Extra) == 1 && m.Extra[0].Name == name {
+				continue
+			}
+			m.Extra = append(m.Extra, ArMember{Name: name, SlashTerm: m.Slash, MTime: 1700000000, Mode: "100644", Data: rapid.SampledFrom([][]byte{[]byte("-----BEGIN PGP SIGNATURE-----\n"), {}, []byte("0123456789abcdef  data.tar\n"), bytes.Repeat([]byte{0}, 1024)}).Draw(t, "lookData")})
+		}
+		m.ExtraPos = rapid.IntRange(0, 1).Draw(t, "extrapos")
+		return SameBytesCase{M: m, Loads: rapid.IntRange(8, 16).Draw(t, "loads")}
+	}, 300, 3000)
 }
 
 // ------------------------------------------------------------------ real dpkg-deb
